@@ -237,3 +237,13 @@ impl InvalidKey {
         InvalidKey { key_bytes, source }
     }
 }
+
+#[cfg(swimos_verif)]
+pub mod verif_hooks {
+    pub use super::key::ReconKey;
+    pub use super::map_queue::MapOperationQueue;
+    pub use super::recon::MapOperationReconEncoder;
+    pub use super::{
+        BackpressureStrategy, InvalidKey, MapBackpressure, SupplyBackpressure, ValueBackpressure,
+    };
+}
